@@ -84,6 +84,17 @@ def window():
         K = f"e{i}"
         ops += [c("c1", ("WATCH", K)), c("c1", ("MULTI",)) if ender[0] != "UNWATCH" else c("c1", ("PING",)), c("c1", ender), c("c2", ("SET", K, "changed")),
                 c("c1", ("MULTI",)), c("c1", ("SET", f"m{i}", "1")), c("c1", ("EXEC",)), c("c1", ("EXISTS", f"m{i}"))]
+    # a second WATCH (of the same key, of the same key among others, of other keys) between the change
+    # and the EXEC must not forget the change; watching twice without a change must not invent one
+    for j, rewatch in enumerate((("K",), ("K", "other"), ("other", "K"), ("other",), ("K", "K"))):
+        for changed in (True, False):
+            i += 1
+            K = f"r{i}"
+            keys = tuple(K if a == "K" else f"o{i}" for a in rewatch)
+            ops += [c("c2", ("SET", K, "0")), c("c1", ("WATCH", K))]
+            if changed:
+                ops.append(c("c2", ("SET", K, "99")))
+            ops += [c("c1", ("WATCH",) + keys), c("c1", ("MULTI",)), c("c1", ("SET", K, "11")), c("c1", ("EXEC",)), c("c1", ("GET", K))]
     ops.append("dump")
     return ops
 
